@@ -12,6 +12,9 @@ Tie (this check): stepwise simulation of random real histories, harness/iindex_h
     snapshots of every non-receiver operand, numpy.shares_memory for explicitly requested copies;
   * verdicts, shrinking (drop steps / drop rows), evidence (operation / history-length / exception histograms, anchored
     line coverage, steps inside the theorems' hypotheses `args_ok_b`).
+  * the in-Coq tie is small-scope (N <= 8 initial rows); a SCALE stream (histories from sparse indexes of 130-400 rows with
+    50-200-row appends and out-of-order multi-value updates; a few one-step cases on arrays of more than 65 536 cells) is
+    always judged by the model-free oracles and compared inside Coq only while the literals stay small.
 Notes: notes/iindex-harness.md."""
 from .. import iindex_hist
 
